@@ -165,14 +165,15 @@ def evaluate(rows, model_ok, want, exact_nest_paths=False):
             if not r.get("gofmt"):
                 out["gofmt"].append(r)
         impl_struct = (r.get("dump", "") + " ; " + r.get("sents", "") + " ; polls=%d" % r.get("polls", 0)) if r.get("file") else "none"
-        if gen_ans[ri] is not None and gen_ans[ri] != impl_struct:
-            out["struct"].append((r, impl_struct, gen_ans[ri]))
+        if gen_ans[ri] is not None and gen_ans[ri] != impl_struct and not r.get("canon_sexp"):
+            out["struct"].append((r, impl_struct, gen_ans[ri]))          # (the models only read decimal parameters: spelled variants are decided by the Spec alone)
         if not r.get("obs"):
             continue
         for vi, (v, o) in enumerate(zip(r["values"], r["obs"])):
             sem_reqs.append("sem\t%s\tbg\t%s" % (r["decl_sexp"], v))
             # a nested struct carrying markers: the Spec WITH such markers (Spec.violatedN) is asked about the declaration as written
-            spec_reqs.append(("specn\t%s\t%s" if r.get("spec_sexp") else "spec\t%s\t%s") % (r["decl_sexp"], v))
+            # (an unusually spelled marker parameter: the Spec is asked about the declaration with plain decimal parameters)
+            spec_reqs.append(("specn\t%s\t%s" if r.get("spec_sexp") else "spec\t%s\t%s") % (r.get("canon_sexp") or r["decl_sexp"], v))
             if r.get("spec_sexp"):
                 xcheck_reqs.append("spec\t%s\t%s" % (r["spec_sexp"], v))
                 xcheck_idx.append(len(idx))
@@ -182,12 +183,12 @@ def evaluate(rows, model_ok, want, exact_nest_paths=False):
     # value is silently accepted (there is not even a Validate method)
     nofile = [r for r in rows if not r.get("file") and not r.get("gen_exit") and r.get("values")]
     if nofile:
-        polls = C.drive("specdrv", ["polls\t" + (r.get("spec_sexp") or r["decl_sexp"]) for r in nofile])
+        polls = C.drive("specdrv", ["polls\t" + (r.get("spec_sexp") or r.get("canon_sexp") or r["decl_sexp"]) for r in nofile])
         cand = [r for r, p in zip(nofile, polls) if p.isdigit() and int(p) > 0]
         reqs2, owner = [], []
         for r in cand:
             for v in r["values"]:
-                reqs2.append("spec\t%s\t%s" % (r.get("spec_sexp") or r["decl_sexp"], v))
+                reqs2.append("spec\t%s\t%s" % (r.get("spec_sexp") or r.get("canon_sexp") or r["decl_sexp"], v))
                 owner.append((r, v))
         if reqs2:
             for (r, v), a in zip(owner, C.drive("specdrv", reqs2)):
@@ -220,7 +221,7 @@ def evaluate(rows, model_ok, want, exact_nest_paths=False):
         bump("outcome:" + o.split(" ")[0].split(":")[0])
         if o == "panic":
             out["panic"].append((r, v, "Validate()"))
-        if sa is not None and not same_report(sa, o):
+        if sa is not None and not same_report(sa, o) and not r.get("canon_sexp"):
             out["sem"].append((r, v, o, sa))
         if pa == "undef":
             out["undef"] += 1
@@ -300,6 +301,8 @@ def short(r):
     d = {"scenario": r["scenario"], "decl": r["decl"], "decl_sexp": r["decl_sexp"], "source": r.get("source", "")[:4000]}
     if r.get("history"):
         d["history_generated_first_in_the_same_directory"] = r["history"][:6000]
+    if r.get("canon_sexp"):
+        d["spec_asked_about_decimal_spelling"] = r["canon_sexp"][:2000]
     if r.get("spec_sexp"):
         d["note"] = "a nested-struct field carries markers: compared as a multiset of (rule, value) entries with the Spec of the declaration in which those markers are written on the direct fields of that struct"
     return d
